@@ -30,4 +30,14 @@ theorem C05_gen_handlersOnlyReport : Generated.handlersOnlyReport = some true :=
     `method` is never rebound (no strip / case folding / normalisation). -/
 theorem C05_gen_methodUnmodified : Generated.methodUnmodified = some true := by decide
 
+/-- The standard-library handler parses with `json.loads` and its default, strict settings: the grammar
+    of `JRV.Model.JsonText` (hypothesis `hstrict` of `C05_malformed_text`). -/
+theorem C05_gen_stdlibLoadsPlain : Generated.stdlibLoadsPlain = some true := by decide
+
+/-- `loads` does not parse the empty body (`JsonText.verdict [] = .noData`). -/
+theorem C05_gen_loadsEmptyIsNone : Generated.loadsEmptyIsNone = some true := by decide
+
+/-- `loads` hands the body to the parser as it is: the verdict is that of the whole text. -/
+theorem C05_gen_loadsParsesWholeBody : Generated.loadsParsesWholeBody = some true := by decide
+
 end JRV.Props
